@@ -778,7 +778,9 @@ Proof.
       rewrite Hnil in H. contradiction. }
   unfold get_entry, newest. destruct (fold_left _ (gather E' d k (crash F s)) None) as [r|] eqn:Hr.
   - assert (Cr : content r = content p) by (eapply newest_same_content; [exact Hc| |exact Hr]; discriminate).
-    assert (Hid : (match lookup (ploc E' d k) (crash F s) with Some q => idle E' d q now | None => false end) = false).
+    assert (Hid : (match lookup (ploc E' d k) (crash F s) with
+                   | Some q => idle E' d {| ev := ev q; ettl := ettl q; ets := ets q; ela := now |} now
+                   | None => false end) = false).
     { destruct (lookup (ploc E' d k) (crash F s)); [|reflexivity]. unfold idle. now rewrite Hi. }
     rewrite Hid, andb_true_r. assert (Hv : visible r now = visible p now) by (unfold visible; unfold content in Cr; congruence).
     rewrite Hv. destruct (visible p now); cbn; congruence.
